@@ -172,6 +172,8 @@ func fnExprJS(e *sx) string {
 		return "(0, " + fnExprJS(a[0]) + ")"
 	case "evd":
 		return "eval(" + strconv.Quote(fnBodyJS(a[0], a[1], a[2])) + ")"
+	case "evx":
+		return "eval(" + ChunkedString(fnBodyJS(a[0], a[1], a[2])) + ")"
 	case "evi":
 		// a host function that re-enters the VM: hostCall("f") = Otto.Call("f", nil), which runs f() as global code
 		if len(a[0].args) == 0 && len(a[1].args) == 0 && len(a[2].args) == 1 && a[2].args[0].name == "X" &&
